@@ -68,9 +68,7 @@ def gen_congested(r, info):
     ev += [("send", n, r.choice(big), [0, 0]), ("send", n, r.choice(big), [0, 0])]
     staller = r.choice([n, n[:1]]) if parent else n
     ev.append(("up", staller, 0, 0x8E, [1]))
-    # the clock moves past the expiry age; in half of the sessions the library's expiry pass (heartbeat thread, within 0.1 s)
-    # comes at once (`time`), in the other half everything that follows happens before it (`clock`)
-    ev.append((r.choice(["time", "clock"]), 1000 + r.choice([3, 5, 60])))
+    ev.append(("time", 1000 + r.choice([3, 5, 60])))
     for _ in range(r.range(1, 3)):
         ev.append(("up", n, r.below(256), r.choice([0xA0, 0xA1]), [r.below(256)]))
     ev.append(("up", staller, 0, 0x8E, [0]))
@@ -81,7 +79,7 @@ def script_of(cid, ev):
     L = ["case %s" % cid]
     for i, e in enumerate(ev):
         if e[0] == "up": L.append("rx " + hexs(frame(upmsg(e[1], e[2], e[3], e[4]))))
-        elif e[0] in ("time", "clock"): L.append("%s %d" % (e[0], e[1]))
+        elif e[0] == "time": L.append("time %d" % e[1])
         elif e[0] == "must_drain": L.append("flush")
         else:
             a = list(e[1]) + [0, 0, 0]; L.append("send %d %d %d %d %s" % (a[0], a[1], a[2], e[2], hexs(e[3])))
